@@ -10,6 +10,7 @@ import Mathlib.Algebra.Order.Field.Basic
   `ax` is one component of `get_3d_voxel_index` (floor, cast to unsigned, clamp to `nb − 1`),
   `nbAxis` one component of the voxel count of `update_dimensions`.
 -/
+set_option linter.unusedSectionVars false
 namespace Simu.Grid
 open Simu
 
@@ -30,7 +31,7 @@ theorem ax_lt (fn : Fn R) (m v p : R) {nb : Nat} (h : 1 ≤ nb) : ax fn m v nb p
 def nbStart (i : Nat) : Nat := if i = 0 then 0 else i - 1
 def nbEnd (nb i : Nat) : Nat := if i = nb - 1 then nb else i + 2
 
-theorem nb_window {nb i j : Nat} (hi : i < nb) (hj : j < nb) (h1 : i ≤ j + 1) (h2 : j ≤ i + 1) :
+theorem nb_window {nb i j : Nat} (_hi : i < nb) (hj : j < nb) (h1 : i ≤ j + 1) (h2 : j ≤ i + 1) :
     nbStart i ≤ j ∧ j < nbEnd nb i := by
   unfold nbStart nbEnd; split_ifs <;> omega
 
